@@ -53,6 +53,36 @@ def _configs(reg):
                        'plant_type.value': ('PlantType', p)}
 
 
+def check_product_suffix_discipline(ctx, rule: str) -> int:
+    """In CalculateLCOELCOHLCOC the cogeneration arms compute every term twice, as `<term>_elec` and `<term>_heat`.  A `_heat` term (and
+    LCOH) is built from `_heat` terms and shared quantities only, an `_elec` term (and LCOE) from `_elec` terms only: a term of the other
+    product in the expression puts part of one product's cost (its tax credit, its O&M) into the other product's levelized cost."""
+    f = ctx.repo.function('geophires_x/Economics.py', 'CalculateLCOELCOHLCOC')
+    n = 0
+    for st in ast.walk(f.node):
+        if not (isinstance(st, ast.Assign) and len(st.targets) == 1 and isinstance(st.targets[0], ast.Name)):
+            continue
+        t = st.targets[0].id
+        side = 'heat' if t.endswith('_heat') or t == 'LCOH' else 'elec' if t.endswith('_elec') or t == 'LCOE' else None
+        if side is None:
+            continue
+        other = 'elec' if side == 'heat' else 'heat'
+        names = sorted({x.id for x in ast.walk(st.value) if isinstance(x, ast.Name) and x.id.endswith('_' + other)})
+        if not any(x.id.endswith('_' + side) for x in ast.walk(st.value) if isinstance(x, ast.Name)) and not names:
+            continue
+        n += 1
+        ctx.check(not names, rule, f'CalculateLCOELCOHLCOC/{t}@{_arm_of2(f, st)}/own-product-terms-only', f'{f.module.rel}:{st.lineno}',
+                  f'`{t}` is computed from {names}: a term of the {other} product enters the {side} side of the cogeneration split, so the '
+                  f'levelized cost of {side} moves with costs and credits allocated to {other}', fact=f'only _{side} and shared terms')
+    return n
+
+
+def _arm_of2(f, st) -> str:
+    from gxstat.flowutil import guards_of
+    gs = [norm(t)[:40] for t, pol in guards_of(st, f.node) if pol]
+    return gs[-1] if gs else 'top'
+
+
 def run(ctx) -> None:
     repo = ctx.repo
     reg = get_registry(repo)
@@ -277,6 +307,9 @@ def run(ctx) -> None:
             _check_r5(ctx, p, arm, rel)
     ctx.floor('R2', n_out, 21, 'assigned outputs over all paths')
     ctx.analysed['assigned_outputs'] = n_out
+    ctx.rule('R11', 'cogeneration split: `_heat` terms and LCOH are built from `_heat` and shared terms only, `_elec` terms and LCOE from `_elec` only')
+    n11 = check_product_suffix_discipline(ctx, 'R11')
+    ctx.floor('R11', n11, 10, 'per-product terms of the cogeneration arms')
     ctx.rule('R10', 'every levelized-cost line of the text report prints the output of the economics object whose Calculate computed it last '
                     '(model.economics), and nothing else calls CalculateLCOELCOHLCOC on that object from another model part')
     from gxstat.report import writer_templates as _wt
